@@ -15,7 +15,7 @@ DRIVER = "Driver/C09.lean"
 OBLIGATIONS = ["NiftyVerif.C09." + t for t in (
     "dft_orthogonal", "fft_zero_mode_is_integral", "fft_modes_consistent", "hartley_symmetric",
     "hartley_is_matrix", "hartley_involutive_up_to_n", "hartley3_involutive_up_to_n",
-    "hartley_modes_consistent", "hartley_complex_split", "smoothing_sigma0_id")]
+    "hartley_modes_consistent", "hartley_complex_split", "smoothing_sigma0_id", "rg_dvol_product")]
 RULE = ("operator cases: product domains of 1-3 spaces, transformed RGSpace of 1-3 dims (axis lengths 1..6), "
         "position/harmonic domain, default or explicit codomain, FFTOperator/HartleyOperator (4 modes) and "
         "HarmonicTransformOperator (2 modes), both hartley conventions, real/complex integer input (random + basis "
